@@ -26,7 +26,7 @@ ASSUMPTIONS = [
 ]
 REQUIRED_CLASSES = ["in-order", "misordered", "unknown-name", "ignored-name", "contig-without-data", "cut-inside-group", "last-group-misplaced",
                     "iter", "pileup", "mask-sum", "compute", "track", "multistream", "forbes-jaccard", "kept-underscore-name", "text-typed-contig-column", "long-groups",
-                    "compute-joint", "joint-evaluation-one-dataset-empty-on-a-contig"]
+                    "compute-joint", "joint-evaluation-one-dataset-empty-on-a-contig", "contig-comes-back-after-another", "first-and-last-entry-on-the-same-contig"]
 BOUNDS = {"quick": "genomes of 3 contigs (+1 ignored): every group sequence over 5 labels (326) x 3 chunkings x 9 consumers; 4-contig genomes sampled (600)",
           "thorough": "genomes of up to 4 contigs: every group sequence over 6 labels (1957) x 4 chunkings x 9 consumers; 48000 sampled"}
 BUDGET_S = {"quick": 200, "thorough": 1500}
@@ -45,15 +45,21 @@ def verdict(case):
     ignored = set(case.get("ignored", []))
     consumer_ignores = case["consumer"] not in ("multistream", "forbes-jaccard", "left-join")
     seq = [g for g in case["groups"]]
+    collapse = lambda q: [g for i, g in enumerate(q) if i == 0 or q[i - 1] != g]        # (neighbouring groups of one name are one group)
+    seq = collapse(seq)
+    # a contig of the genome that comes back with only ignored rows in between: in order once those rows are left out, out of order as the data
+    # stands: either outcome is accepted (an error, or a complete evaluation)
+    straddles_ignored = consumer_ignores and any(g not in ignored and g in seq[:i - 1] for i, g in enumerate(seq) if i >= 2) \
+        and len(set(collapse([g for g in seq if g not in ignored]))) == len(collapse([g for g in seq if g not in ignored]))
     if consumer_ignores:
-        seq = [g for g in seq if g not in ignored]
+        seq = collapse([g for g in seq if g not in ignored])
     included = [n for n in genome if not (consumer_ignores and n in ignored)]
     if any(g not in included for g in seq):
         return "must-raise", None
     idx = [included.index(g) for g in seq]
     if idx != sorted(idx) or len(set(idx)) != len(idx):
         return "must-raise", None
-    return "ok", included
+    return ("either" if straddles_ignored else "ok"), included
 
 
 def classify(case):
@@ -62,7 +68,9 @@ def classify(case):
     ignored = set(case.get("ignored", []))
     cl = [case["consumer"]]
     seq = case["groups"]
-    if v == "ok":
+    if v == "either":
+        cl.append("in-order-once-ignored-rows-are-left-out")
+    if v in ("ok", "either"):
         cl.append("in-order")
         if any(n not in seq for n in inc):
             cl.append("contig-without-data")
@@ -72,6 +80,10 @@ def classify(case):
         cl.append("misordered")
         if len(idx) >= 2 and idx[-1] < max(idx[:-1]):
             cl.append("last-group-misplaced")
+    if any(seq[i] == seq[j] for i in range(len(seq)) for j in range(i + 2, len(seq))):
+        cl.append("contig-comes-back-after-another")
+        if seq[0] == seq[-1]:
+            cl.append("first-and-last-entry-on-the-same-contig")
     if any(g not in genome for g in seq):
         cl.append("unknown-name")
     if any(g in ignored for g in seq):
@@ -80,7 +92,7 @@ def classify(case):
         cl.append("long-groups")
     if case.get("text_key") and case["consumer"] in ("iter", "multistream"):
         cl.append("text-typed-contig-column")
-    if case["consumer"] == "compute-joint" and v == "ok":
+    if case["consumer"] == "compute-joint" and v in ("ok", "either"):
         kept_names = [n for n in genome if n not in ignored]
         comp = {n for i, n in enumerate(kept_names) if (case.get("other_mask", 1) >> i) & 1} or {kept_names[0]}
         if any((n in comp) != (n in seq) for n in kept_names[1:]):
@@ -192,7 +204,7 @@ def check(case, stats=None):
             for c, s_, e_ in zip(_names(res["m_chrom"]), np.asarray(res["m_start"]).tolist(), np.asarray(res["m_stop"]).tolist()):
                 seen.setdefault(c, []).append((s_, e_))
             got_comp = list(zip(_names(res["c_chrom"]), np.asarray(res["c_start"]).tolist(), np.asarray(res["c_stop"]).tolist()))
-            if want == "ok" and got_comp != comp:
+            if want in ("ok", "either") and got_comp != comp:
                 return [Failure("C12:contig-entries-differ:compute-joint", {"dataset": "companion", "expected": comp, "actual": got_comp, "groups": case["groups"]})]
         elif consumer == "track":
             bg = BedGraph([r[0] for r in rows], np.array([r[1] for r in rows], dtype=int), np.array([r[1] + 1 for r in rows], dtype=int),
@@ -206,7 +218,7 @@ def check(case, stats=None):
             data = bnp.compute(genome().get_track(st_).get_data())
             got_total = int(sum(v * (e - s) for s, e, v in zip(data.start.tolist(), data.stop.tolist(), np.asarray(data.value).tolist())))
             want_total = sum(kept_values)
-            if want == "ok" and got_total != want_total:
+            if want in ("ok", "either") and got_total != want_total:
                 return [Failure("C12:track-values-lost", {"expected_total": want_total, "actual_total": got_total, "groups": case["groups"]})]
             if want == "must-raise":
                 return [Failure(f"C12:not-reported:{consumer}", {"groups": case["groups"], "genome": case["genome"], "ignored": ignored,
@@ -254,7 +266,7 @@ def check(case, stats=None):
                 return [Failure("C12:jaccard-value", {"expected": inter / union, "actual": float(j), "groups": case["groups"]})]
             return []
     except Exception as e:  # noqa
-        if want == "must-raise":
+        if want in ("must-raise", "either"):
             if stats is not None:
                 stats.raised_allowed[type(e).__name__] += 1
             return []
@@ -300,6 +312,11 @@ def group_sequences(labels):
     for k in range(1, len(labels) + 1):
         for sub in itertools.permutations(labels, k):
             yield list(sub)
+            # a contig that comes back after another one (the first and the last entry of the data then carry the same name)
+            if 2 <= k <= 3:
+                yield list(sub) + [sub[0]]
+                if k == 3:
+                    yield list(sub) + [sub[1]]
 
 
 def core_cases(n_contigs, stride=1, offset=0):
@@ -361,6 +378,8 @@ def sampled_case(draw):
         seq = seq or in_order[:1]
     else:
         seq = draw(st.lists(st.sampled_from(labels), min_size=1, max_size=len(labels), unique=True))
+    if len(seq) >= 2 and draw(st.integers(0, 4)) == 0:
+        seq = seq + [seq[draw(st.integers(0, len(seq) - 2))]]          # a contig that comes back after another one
     if draw(st.integers(0, 3)) == 0:
         # long groups whose boundaries fall on and next to powers of two (block-wise shortcuts in grouping code work at such strides)
         sizes = draw(st.lists(st.sampled_from([1, 2, 31, 32, 33, 63, 64, 65, 127, 128, 129, 150, 192, 200, 256, 257]), min_size=1, max_size=4))
